@@ -1,6 +1,7 @@
 package main
 
 import (
+	"encoding/json"
 	"sort"
 	"crypto/sha256"
 	"fmt"
@@ -874,31 +875,39 @@ func makeIntrinsics() map[string]intrinsic {
 		}
 		return BoolConst(string(x) == string(y))
 	}
-	prevBech := m[SDK+"AccAddressFromBech32"]
-	m[SDK+"AccAddressFromBech32"] = func(st *State, fr *frame, a []value, cc *ssa.CallCommon) value {
-		s, ok := a[0].(*Str).Concrete()
+	m[V+"KnownAddress"] = func(st *State, fr *frame, a []value, cc *ssa.CallCommon) value {
+		b, ok := concBytes(a[0])
 		if !ok {
+			panic("verif.KnownAddress needs concrete bytes")
+		}
+		st.known = append(st.known, b)
+		return nil
+	}
+	m[SDK+"AccAddressFromBech32"] = func(st *State, fr *frame, a []value, cc *ssa.CallCommon) value {
+		in := a[0].(*Str)
+		if in.Blob != nil {
+			panic(pathEnd{kind: "unsupported", msg: "bech32 decoding of an abstract string"})
+		}
+		s, ok := in.Concrete()
+		if !ok {
+			// symbolic string: bech32 is case-insensitive but otherwise injective, so the preimage of an address is
+			// exactly {lower, UPPER}. The orbiter address and the addresses registered with verif.KnownAddress are
+			// matched exactly; any other string is treated as undecodable (stated assumption of the harness).
 			h := sha256.Sum256([]byte("orbiter"))
-			lower := bech32Encode(bechPrefix, h[:20])
-			for _, cand := range []string{lower, strings.ToUpper(lower)} {
-				if st.decide(StrEq(a[0].(*Str), StrConst(cand))) {
-					out := make([]value, 20)
-					for k := range out {
-						out[k] = BVConstI(int64(h[k]), 8)
+			cands := append([][]byte{h[:20]}, st.known...)
+			for _, c := range cands {
+				lower := bech32Encode(bechPrefix, c)
+				for _, cand := range []string{lower, strings.ToUpper(lower)} {
+					if st.decide(StrEq(in, StrConst(cand))) {
+						out := make([]value, len(c))
+						for k := range out {
+							out[k] = BVConstI(int64(c[k]), 8)
+						}
+						return tuple{out, iface{}}
 					}
-					return tuple{out, iface{}}
 				}
 			}
-			// any other string: arbitrary result, but never the orbiter address
-			r := prevBech(st, fr, a, cc).(tuple)
-			if addr, isAddr := r[0].([]value); isAddr && addr != nil {
-				same := True
-				for k := range addr {
-					same = And(same, Eq(addr[k].(*Term), BVConstI(int64(h[k]), 8)))
-				}
-				st.assume(Not(same))
-			}
-			return r
+			return tuple{[]value(nil), newErr(st, "bech32")}
 		}
 		hrp, data, err := bech32Decode(s)
 		if strings.TrimSpace(s) == "" || err != nil || hrp != bechPrefix || len(data) == 0 || len(data) > 255 {
@@ -935,7 +944,7 @@ func makeIntrinsics() map[string]intrinsic {
 		return &Str{Len: st.freshVar("memo_len", BV(64)), Blob: memoBlob{a[0], n}}
 	}
 	m[V+"DecodeJSON"] = func(st *State, fr *frame, a []value, cc *ssa.CallCommon) value {
-		mb, ok := a[0].(*Str).Blob.(memoBlob)
+		mb, ok := asStr(a[0]).Blob.(memoBlob)
 		if !ok {
 			return newErr(st, "json")
 		}
@@ -944,7 +953,7 @@ func makeIntrinsics() map[string]intrinsic {
 		return iface{}
 	}
 	m["(*github.com/cosmos/cosmos-sdk/codec.ProtoCodec).UnmarshalJSON"] = func(st *State, fr *frame, a []value, cc *ssa.CallCommon) value {
-		ib, ok := a[1].(*Str).Blob.(icsBlob)
+		ib, ok := asStr(a[1]).Blob.(icsBlob)
 		if !ok {
 			return newErr(st, "json")
 		}
@@ -953,20 +962,53 @@ func makeIntrinsics() map[string]intrinsic {
 		return iface{}
 	}
 	m["encoding/json.Unmarshal"] = func(st *State, fr *frame, a []value, cc *ssa.CallCommon) value {
-		mb, ok := a[0].(*Str).Blob.(memoBlob)
-		if !ok {
-			return newErr(st, "json")
-		}
-		mp := &mapV{}
-		mp.keys = append(mp.keys, StrConst("orbiter"))
-		mp.vals = append(mp.vals, iface{t: errObjType, v: &opaque{tag: "jsonobj"}})
-		for k := 0; k < mb.extra; k++ {
-			mp.keys = append(mp.keys, StrConst(fmt.Sprintf("extra%d", k)))
-			mp.vals = append(mp.vals, iface{t: errObjType, v: &opaque{tag: "jsonobj"}})
-		}
+		src := asStr(a[0])
 		dst := a[1].(iface).v.(*value)
-		*dst = mp
-		return iface{}
+		jsonObj := iface{t: errObjType, v: &opaque{tag: "jsonobj"}}
+		mp := &mapV{}
+		if mb, ok := src.Blob.(memoBlob); ok {
+			mp.keys = append(mp.keys, StrConst("orbiter"))
+			// {"orbiter": null} when the wrapper has no payload
+			w := (*(mb.wrapper.(*value))).(structure)
+			if p, isPtr := w[0].(*value); isPtr && p == nil {
+				mp.vals = append(mp.vals, iface{})
+			} else {
+				mp.vals = append(mp.vals, jsonObj)
+			}
+			for k := 0; k < mb.extra; k++ {
+				mp.keys = append(mp.keys, StrConst(fmt.Sprintf("extra%d", k)))
+				mp.vals = append(mp.vals, jsonObj)
+			}
+			*dst = mp
+			return iface{}
+		}
+		if cs, ok := src.Concrete(); ok && src.Blob == nil {
+			// a concrete document: the real encoding/json decides (only map[string]any targets occur)
+			var m map[string]any
+			if err := json.Unmarshal([]byte(cs), &m); err != nil {
+				return newErr(st, "json")
+			}
+			if m == nil { // "null"
+				*dst = (*mapV)(nil)
+				return iface{}
+			}
+			var ks []string
+			for k := range m {
+				ks = append(ks, k)
+			}
+			sort.Strings(ks)
+			for _, k := range ks {
+				mp.keys = append(mp.keys, StrConst(k))
+				if m[k] == nil {
+					mp.vals = append(mp.vals, iface{})
+				} else {
+					mp.vals = append(mp.vals, jsonObj)
+				}
+			}
+			*dst = mp
+			return iface{}
+		}
+		return newErr(st, "json") // abstract non-JSON bytes
 	}
 	m["(github.com/cosmos/ibc-go/v8/modules/core/04-channel/types.Acknowledgement).Success"] = func(st *State, fr *frame, a []value, cc *ssa.CallCommon) value {
 		resp := a[0].(structure)[0].(iface)
@@ -1014,7 +1056,27 @@ func makeIntrinsics() map[string]intrinsic {
 		}
 		return StrConst(strings.Join(parts, sep))
 	}
-	m["strings.TrimSpace"] = func(st *State, fr *frame, a []value, cc *ssa.CallCommon) value { return a[0] }
+	m["strings.TrimSpace"] = func(st *State, fr *frame, a []value, cc *ssa.CallCommon) value {
+		in := a[0].(*Str)
+		if cs, ok := in.Concrete(); ok && in.Blob == nil {
+			return StrConst(strings.TrimSpace(cs))
+		}
+		if in.Blob != nil {
+			return in // encoded documents / decimal renderings are never blank
+		}
+		// symbolic bytes: decide "blank" exactly (ASCII white space; non-ASCII bytes are not white space for the
+		// purposes of the emptiness tests this is used for), otherwise return the string untrimmed
+		blank := True
+		for i, b := range in.B {
+			sp := Or(Eq(b, BVConstI(' ', 8)), And(BVCmp("bvuge", b, BVConstI(9, 8)), BVCmp("bvule", b, BVConstI(13, 8))))
+			blank = And(blank, Or(Not(BVCmp("bvult", BVConstI(int64(i), 64), in.Len)), sp))
+		}
+		if st.decide(blank) {
+			return StrConst("")
+		}
+		// not blank: the callers in scope only test the result for emptiness or pass the ORIGINAL string on
+		return in
+	}
 	m["("+C+"Item[V]).Get"] = func(st *State, fr *frame, a []value, cc *ssa.CallCommon) value {
 		vt := st.curFn.Signature.Results().At(0).Type()
 		return tuple{zero(vt), newErr(st, "collections.ErrNotFound")}
@@ -1110,6 +1172,21 @@ func (st *State) decimal(x *Term) *Str {
 	st.assume(Eq(sum, Resize(x, ww, false)))
 	result = &Str{B: digits, Len: BVConstI(int64(nd), 64)}
 	return result
+}
+
+// asStr views a string or byte slice value as a Str.
+func asStr(v value) *Str {
+	switch x := v.(type) {
+	case *Str:
+		return x
+	case []value:
+		s := &Str{Len: BVConstI(int64(len(x)), 64)}
+		for _, b := range x {
+			s.B = append(s.B, b.(*Term))
+		}
+		return s
+	}
+	panic(pathEnd{kind: "unsupported", msg: fmt.Sprintf("string view of %T", v)})
 }
 
 // valString renders a value by the identity of its terms (hash-consed: equal terms, equal text).
